@@ -219,7 +219,12 @@ def main(argv=None):
     tier = a.tier if a.tier in ("quick", "thorough") else "quick"
     seed = int(os.environ.get("VERIF_SEED", "0") or 0)
     t0 = time.time()
-    mod = importlib.import_module(f"harness.{pid}")
+    try:
+        mod = importlib.import_module(f"harness.{pid}")
+    except Exception as e:  # the harness imports torchjd's own modules against the model: an unmodelled name at import time is inconclusive, not a violation
+        traceback.print_exc()
+        print(f"[{pid}/{tier}] status=inconclusive: the harness could not be imported against the current tree ({type(e).__name__}: {e})")
+        return 2
     cases = mod.cases(tier)
     if a.only:
         cases = [c for c in cases if a.only in c["name"]]
